@@ -1277,3 +1277,39 @@ package spine
 //@   loop 1 invariant acc: bindings == nil || freshPre(bindings)
 //@   loop 1 invariant len: len(bindings) == FBcnt($k) && $s == B0
 //@   loop 1 invariant elems: forall j int :: 0 <= j && j < $k && kept($s[j]) ==> bindings[FBcnt(j)] == $s[j]
+
+// ---------------------------------------------------------------------------------------
+// use cases of a local entity (C20): copy - modify - store on the use case data of the device's node management
+// feature, with this entity's address, as one critical section of muxUseCaseData (so changes of different entities
+// cannot overwrite each other)
+//@ lock muxUseCaseData level 5
+//@ func LocalFeatureDataCopyOfType trusted
+//@   ensures result1 == nil ==> result0 != nil
+//@   ensures locksUnchanged() && acquisitions(muxUseCaseData) == 0
+//@   modifies held, wm
+
+//@ define UCF = model.FunctionTypeNodeManagementUseCaseData
+//@ define mineAddr(a) = a.Device == r.Entity.address.Device && a.Entity == r.Entity.address.Entity && a.Feature == nil
+
+//@ func (*EntityLocal).AddUseCaseSupport
+//@   requires r != nil && r.Entity != nil && r.Entity.address != nil && r.device != nil && len(useCaseName) > 0 && r.Entity.address.Device != nil && r.Entity.address.Entity != nil
+//@   ensures[C20] declares-for-own-address: mineAddr(arg2(AddUseCaseSupport, 0, 1)) && arg2(AddUseCaseSupport, 0, 2) == actor && arg2(AddUseCaseSupport, 0, 3) == useCaseName && arg2(AddUseCaseSupport, 0, 4) == useCaseVersion && arg2(AddUseCaseSupport, 0, 6) == useCaseAvailable && arg2(AddUseCaseSupport, 0, 7) == scenarios
+//@   ensures[C20] stored-once: setn == old(setn) + 1 && setobj[old(setn)] == old(r.device.NodeManagement()) && setfct[old(setn)] == UCF && setdata[old(setn)] == iface(arg2(AddUseCaseSupport, 0, 0))
+//@   ensures[C20] atomic: acquisitions(muxUseCaseData) == 1 && at(SetData, held(muxUseCaseData)) && at(LocalFeatureDataCopyOfType, held(muxUseCaseData)) && locksUnchanged()
+//@   modifies held, wm, world, @SETLOG, @PUBLISH, outmisc, cells(model.NodeManagementUseCaseDataType), cells(model.UseCaseInformationDataType), cells(model.UseCaseSupportType), cells(model.FeatureAddressType)
+
+//@ func (*EntityLocal).RemoveUseCaseSupport
+//@   requires r != nil && r.Entity != nil && r.Entity.address != nil && r.device != nil
+//@   ensures[C20] removes-for-own-address: res2(LocalFeatureDataCopyOfType, 0, 1) == nil ==> mineAddr(arg2(RemoveUseCaseSupport, 0, 1)) && arg2(RemoveUseCaseSupport, 0, 2) == actor && arg2(RemoveUseCaseSupport, 0, 3) == useCaseName
+//@   ensures[C20] stored-once: res2(LocalFeatureDataCopyOfType, 0, 1) == nil ==> setn == old(setn) + 1 && setobj[old(setn)] == old(r.device.NodeManagement()) && setfct[old(setn)] == UCF && setdata[old(setn)] == iface(arg2(RemoveUseCaseSupport, 0, 0))
+//@   ensures[C20] nothing-declared-noop: res2(LocalFeatureDataCopyOfType, 0, 1) != nil ==> setn == old(setn)
+//@   ensures[C20] atomic: acquisitions(muxUseCaseData) == 1 && locksUnchanged() && (res2(LocalFeatureDataCopyOfType, 0, 1) == nil ==> at(SetData, held(muxUseCaseData)))
+//@   modifies held, wm, world, @SETLOG, @PUBLISH, outmisc, cells(model.NodeManagementUseCaseDataType), cells(model.UseCaseInformationDataType), cells(model.UseCaseSupportType), cells(model.FeatureAddressType)
+
+//@ func (*EntityLocal).RemoveAllUseCaseSupports
+//@   requires r != nil && r.Entity != nil && r.Entity.address != nil && r.device != nil
+//@   ensures[C20] removes-own-address: res2(LocalFeatureDataCopyOfType, 0, 1) == nil ==> mineAddr(arg2(RemoveUseCaseDataForAddress, 0, 1))
+//@   ensures[C20] stored-once: res2(LocalFeatureDataCopyOfType, 0, 1) == nil ==> setn == old(setn) + 1 && setobj[old(setn)] == old(r.device.NodeManagement()) && setfct[old(setn)] == UCF && setdata[old(setn)] == iface(arg2(RemoveUseCaseDataForAddress, 0, 0))
+//@   ensures[C20] nothing-declared-noop: res2(LocalFeatureDataCopyOfType, 0, 1) != nil ==> setn == old(setn)
+//@   ensures[C20] atomic: acquisitions(muxUseCaseData) == 1 && locksUnchanged()
+//@   modifies held, wm, world, @SETLOG, @PUBLISH, outmisc, cells(model.NodeManagementUseCaseDataType), cells(model.UseCaseInformationDataType), cells(model.UseCaseSupportType), cells(model.FeatureAddressType)
